@@ -27,6 +27,13 @@ import (
 
 func defaultCloser() error { return nil }
 
+// isNilPointer tells whether data holds a typed nil pointer: there is nothing a consumer could store into.
+func isNilPointer(data interface{}) bool {
+	v := reflect.ValueOf(data)
+
+	return v.Kind() == reflect.Ptr && v.IsNil()
+}
+
 type byteStreamOpt func(opts *byteStreamOpts)
 
 // ClosesStream when the bytestream consumer or producer is finished
@@ -69,7 +76,7 @@ func ByteStreamConsumer(opts ...byteStreamOpt) Consumer {
 			_ = closer()
 		}()
 
-		if data == nil {
+		if data == nil || isNilPointer(data) {
 			return errors.New("nil destination for ByteStreamConsumer")
 		}
 
